@@ -179,6 +179,14 @@ func runC11(c *core.Ctx) *core.Violation {
 			}
 			mut[pos] = orig
 		}
+		// the file trailer cut short: 1..8 missing checksum bytes (8 = the stream ends right after the EOF opcode)
+		if version >= 5 {
+			for k := 1; k <= 8 && k < len(file); k++ {
+				if _, err, _ := loadAll(file[:len(file)-k]); err == nil {
+					return core.Violate("short-rdb-accepted", fmt.Sprintf("missing=%d", k), "an RDB (version %d) whose last %d checksum byte(s) are missing was accepted", version, k)
+				}
+			}
+		}
 		dbg("rdb mutants done %d", mutants)
 		c.Count("rdb_mutants", mutants)
 		c.Fault("rdb_byte_substituted")
